@@ -108,7 +108,7 @@ def scope_rank(s):
 
 
 def run(tier, seed):
-    r = Run(PROP, MODULE, THEOREMS, tier, seed)
+    r = Run(PROP, MODULE, THEOREMS, tier, seed, need_server=True)
     if not r.prepare():
         return r.finish(RULE)
     n = 120 if tier == "quick" else 2000
@@ -218,7 +218,75 @@ def run(tier, seed):
                                 report(f"scope mismatch reported against {tgt}, which is not the definition {dep} resolves to from {f} ({ts})", sorted(RESFLAGS), k)
     r.stats["reported_cycles_checked"] = ncyc
     r.stats["fixture_dependency_pairs_checked"] = nmis
+    publish_part(r, tier)
     return r.finish(RULE)
+
+
+def publish_part(r, tier):
+    """what the CLIENT receives (fixed documents over stdio): one scope-mismatch warning per (fixture, narrower
+    dependency) pair - several on one fixture when several of its dependencies are narrower - and the cycle of the
+    document reported once, on one of its fixtures; each diagnostic covers its subject. Compared with the model's publication
+    and, independently, with the pairs the documents are built from"""
+    from .. import stdio
+    from .c19 import parse_diag, subject
+    v = r.verdict
+    conf = ("import pytest\n\n@pytest.fixture\ndef db_row():\n    return 1\n\n@pytest.fixture\ndef settings():\n    return 2\n\n"
+            "@pytest.fixture(scope=\"module\")\ndef scratch_dir():\n    return 3\n\n"
+            "@pytest.fixture(scope=\"session\")\ndef catalog(db_row, settings, scratch_dir):\n    return 4\n\n"
+            "@pytest.fixture(scope=\"module\")\ndef shelf(db_row, catalog, settings):\n    return 5\n\n"
+            "@pytest.fixture\ndef ring_a(ring_b):\n    return 6\n\n@pytest.fixture\ndef ring_b(ring_a):\n    return 7\n")
+    over = ("import pytest\n\n@pytest.fixture(scope=\"session\")\ndef wide(db_row, settings):\n    return 8\n\n"
+            "def test_o(wide, ring_b, catalog):\n    pass\n")
+    want = {"conftest.py": {("catalog", "db_row"), ("catalog", "settings"), ("catalog", "scratch_dir"), ("shelf", "db_row"), ("shelf", "settings")},
+            "sub/test_over.py": {("wide", "db_row"), ("wide", "settings")}}
+    scs = []
+    for j, order in enumerate([["conftest.py", "sub/test_over.py"], ["sub/test_over.py", "conftest.py"]]):
+        sc = stdio.StdioCase("pub%d" % j, {"conftest.py": conf, "sub/test_over.py": over})
+        for p in order:
+            sc.open(p)
+        # opened once more after everything is indexed (didChange with the same text)
+        for p in order:
+            sc.change(p, sc.files[p])
+        scs.append(sc)
+    res, mcases, msp = stdio.run_all(r, scs, tag="publish")
+    n = 0
+    last = {}
+    for (sc, i, step, a, m, k) in res:
+        r.corr_checked += 1
+        n += 1
+        if a in ("DIED", "HUNG") or a.startswith(("DIED-AT-START", "NO-PUBLISH")):
+            if step[0] == "change" and a.startswith("NO-PUBLISH "):
+                a = a[len("NO-PUBLISH "):]
+            else:
+                msg = f"stdio case {sc.name}: step {i} ({step[0]} of {step[1]}): {a[:60]}"
+                v.violation(f"{sc.name}-{i}", msg, f"# {msg}\n" + mcases.replay_text(sc.name)); continue
+        if not stdio.agree(a, m):
+            r.corr_bad.append((k, list(step[:2]), a, m))
+        last[(sc.name, step[1])] = (a, i)
+    for (name, p), (a, i) in last.items():
+        ds = parse_diag(a)
+        pairs = [(x[4].split("'")[1], x[4].split("'")[3]) if x[4].count("'") >= 4 else None for x in ds if x[0] == "scope-mismatch"]
+        got = {q for q in pairs if q}
+        if got != want[p] or len(pairs) != len(got):
+            msg = (f"stdio case {name}: the scope-mismatch warnings published for {p} are about {sorted(pairs, key=str)}; the (fixture, narrower "
+                   f"dependency) pairs of the document are {sorted(want[p])}")
+            v.violation(f"{name}-{p}-pairs", msg, f"# {msg}\n# published: {a}\n" + mcases.replay_text(name))
+        lines = (conf if p == "conftest.py" else over).split("\n")
+        for (code, l, ca, cb, msg_, raw) in ds:
+            subj = subject(code, msg_)
+            text = lines[l][ca:cb] if l < len(lines) else None
+            if subj is None or text != subj:
+                msg = (f"stdio case {name}: diagnostic {code} published for {p} at {l}:{ca}-{cb} ({msg_!r}) does not cover {subj!r} "
+                       f"in that document (text there: {text!r})")
+                v.violation(f"{name}-{p}-{l}-span", msg, f"# {msg}\n" + mcases.replay_text(name))
+        # (the cycle ring_a <-> ring_b is reported once, on whichever of the two the search entered it by)
+        cyc = sorted(subject(x[0], x[4]) for x in ds if x[0] == "circular-dependency")
+        ok = (len(cyc) == 1 and cyc[0] in ("ring_a", "ring_b")) if p == "conftest.py" else cyc == []
+        if not ok:
+            msg = (f"stdio case {name}: cycle reports published for {p} are anchored on {cyc}; the document "
+                   + ("defines the one cycle ring_a <-> ring_b" if p == "conftest.py" else "defines no fixture of a cycle"))
+            v.violation(f"{name}-{p}-cycles", msg, f"# {msg}\n# published: {a}\n" + mcases.replay_text(name))
+    r.stats["publications_checked"] = n
 
 
 def replay(path):
